@@ -1,8 +1,17 @@
 package main
 
 import (
+	"bufio"
 	"fmt"
+	"io"
+	"math"
+	"math/big"
+	"os"
+	"os/exec"
+	"runtime"
 	"sort"
+	"strings"
+	"time"
 
 	"github.com/esimov/gogu"
 )
@@ -16,7 +25,15 @@ import (
 //	17 Nth zs n              18 Sum zs                19 SumBy k zs            20 Mean zs
 //	21 Sum[int8] zs          22 Abs x                 23 Clamp n lo hi         24 InRange n lo hi
 //	25 Abs[int8] x           26 Compare cmp a b       27 Less a b              28 Equal a b
-//	29 Range args            30 RangeRight args
+//	29 Range args            30 RangeRight args       31 Mean[int8] zs
+//	32 Clamp[int8] row lo hi: Clamp(n, lo, hi) for EVERY int8 n, as the run-length encoding of
+//	   (first value, successive differences)          33 InRange[int8] row lo hi, run-length encoded
+//	34 Range[float64] s st e   35 RangeRight[float64] s st e   36 Sum[float64] zs   37 FindMin[float64] zs
+//	38 FindMax[float64] zs     (34-38: the wire carries 4x the value; the function gets x/4, its result is
+//	   multiplied by 4 — float64 arithmetic is exact on these quarters)
+//	39 Min[string] zs...  40 Max[string] zs...  41 IndexOf[string] zs x   (an int v is passed as the 5-digit
+//	   numeral of v+50000, whose lexicographic order is the numeric one; "" — the zero value — reads as 0)
+//	42 Range[int8] args   43 RangeRight[int8] args   44 Range[uint8] args   45 RangeRight[uint8] args
 //
 // predicates (p, pa): 0 true, 1 false, 2 even, 3 (< pa), 4 (== pa)
 // key functions k: 0 id, 1 x%2, 2 const 0, 3 -x, 4 |x|
@@ -66,7 +83,130 @@ func mapsOf(flat [][]int) []map[int]int {
 	return ms
 }
 
-func execC13(in []int64) (out []int64) {
+// execC13 is the registered Exec.  Range / RangeRight (all instantiations) run in a separate, long-lived
+// child process of the same binary: a defective loop there does not fail, it runs on and allocates until
+// the Go runtime aborts the process, which no recover() can catch.  The child serves one wire input per
+// line; it exits with status 3 as soon as its heap passes 256 MB, and is killed when a case takes more
+// than 20 s.  Observation [3] = "the call did not return" (the model never answers that).
+func execC13(in []int64) []int64 {
+	if len(in) == 1 && in[0] == c13ServeMagic && os.Getenv("C13_RANGE_CHILD") == "1" {
+		c13Serve() // does not return
+	}
+	if len(in) > 0 && c13IsRange(in[0]) && os.Getenv("C13_RANGE_CHILD") != "1" {
+		if out, ok := c13RangeViaChild(in); ok {
+			return out
+		}
+	}
+	return execC13Direct(in)
+}
+
+const c13ServeMagic = -7713
+
+func c13IsRange(fn int64) bool {
+	return fn == 29 || fn == 30 || fn == 34 || fn == 35 || (fn >= 42 && fn <= 45)
+}
+
+type c13Child struct {
+	cmd   *exec.Cmd
+	stdin io.WriteCloser
+	out   *bufio.Reader
+}
+
+var c13RangeProc *c13Child
+
+// c13Runaways counts the calls that did not return; after c13MaxRunaways of them the generator stops
+// sending Range cases (each costs the time it takes the child to fill its heap; the violation is already
+// established, with replays).
+var c13Runaways int
+
+const c13MaxRunaways = 5
+
+func c13StartChild() *c13Child {
+	exe, err := os.Executable()
+	if err != nil {
+		return nil
+	}
+	cmd := exec.Command(exe, "exec", "C13", fmt.Sprint(c13ServeMagic))
+	cmd.Env = append(os.Environ(), "C13_RANGE_CHILD=1")
+	cmd.Stderr = io.Discard
+	stdin, err1 := cmd.StdinPipe()
+	stdout, err2 := cmd.StdoutPipe()
+	if err1 != nil || err2 != nil || cmd.Start() != nil {
+		return nil
+	}
+	return &c13Child{cmd: cmd, stdin: stdin, out: bufio.NewReaderSize(stdout, 1<<20)}
+}
+
+// c13RangeViaChild returns (observation, true), or (nil, false) when no child could be started (the call is
+// then made in this process).
+func c13RangeViaChild(in []int64) ([]int64, bool) {
+	if c13RangeProc == nil {
+		if c13RangeProc = c13StartChild(); c13RangeProc == nil {
+			return nil, false
+		}
+	}
+	c := c13RangeProc
+	var sb strings.Builder
+	writeInts(&sb, in)
+	sb.WriteByte('\n')
+	type reply struct {
+		line string
+		err  error
+	}
+	ch := make(chan reply, 1)
+	go func() {
+		if _, err := io.WriteString(c.stdin, sb.String()); err != nil {
+			ch <- reply{"", err}
+			return
+		}
+		line, err := c.out.ReadString('\n')
+		ch <- reply{line, err}
+	}()
+	select {
+	case rp := <-ch:
+		if rp.err == nil && strings.HasPrefix(rp.line, "ok ") {
+			return parseInts(strings.TrimSpace(rp.line[3:])), true
+		}
+	case <-time.After(20 * time.Second):
+	}
+	// the child died (out of memory, fatal error) or hangs: discard it; the next case starts a fresh one
+	c.cmd.Process.Kill()
+	c.cmd.Wait()
+	c13RangeProc = nil
+	c13Runaways++
+	return []int64{3}, true
+}
+
+func c13Serve() {
+	go func() { // memory watchdog
+		var ms runtime.MemStats
+		for {
+			time.Sleep(2 * time.Millisecond)
+			runtime.ReadMemStats(&ms)
+			if ms.HeapAlloc > 256<<20 {
+				os.Exit(3)
+			}
+		}
+	}()
+	rd := bufio.NewReaderSize(os.Stdin, 1<<20)
+	w := bufio.NewWriter(os.Stdout)
+	for {
+		line, err := rd.ReadString('\n')
+		if strings.TrimSpace(line) != "" {
+			var sb strings.Builder
+			sb.WriteString("ok ")
+			writeInts(&sb, execC13Direct(parseInts(strings.TrimSpace(line))))
+			sb.WriteByte('\n')
+			w.WriteString(sb.String())
+			w.Flush()
+		}
+		if err != nil {
+			os.Exit(0)
+		}
+	}
+}
+
+func execC13Direct(in []int64) (out []int64) {
 	r := &R{w: in}
 	fn := r.Int()
 	var res []int64
@@ -195,6 +335,120 @@ func execC13(in []int64) (out []int64) {
 			} else {
 				res = (&W{}).Int(0).Ints(l).Out()
 			}
+		case 31:
+			s := r.Ints()
+			s8 := make([]int8, len(s))
+			for i, v := range s {
+				s8[i] = int8(v)
+			}
+			res = resOk(int64(gogu.Mean(s8)))
+		case 32:
+			lo, hi := int8(r.Int()), int8(r.Int())
+			row := make([]int64, 0, 256)
+			prev := int64(0)
+			for n := -128; n <= 127; n++ {
+				v := int64(gogu.Clamp(int8(n), lo, hi))
+				row = append(row, v-prev)
+				prev = v
+			}
+			res = rle(row)
+		case 33:
+			lo, hi := int8(r.Int()), int8(r.Int())
+			row := make([]int64, 0, 256)
+			for n := -128; n <= 127; n++ {
+				row = append(row, b2i(gogu.InRange(int8(n), lo, hi)))
+			}
+			res = rle(row)
+		case 34, 35:
+			args := r.Ints()
+			fa := make([]float64, len(args))
+			for i, v := range args {
+				fa[i] = float64(v) / 4
+			}
+			var l []float64
+			var err error
+			if fn == 34 {
+				l, err = gogu.Range(fa...)
+			} else {
+				l, err = gogu.RangeRight(fa...)
+			}
+			if err != nil {
+				res = resErr(1)
+			} else {
+				w := (&W{}).Int(0).Int(len(l))
+				for _, x := range l {
+					w.I64(c13Quarter(x))
+				}
+				res = w.Out()
+			}
+		case 42, 43:
+			args := r.Ints()
+			a8 := make([]int8, len(args))
+			for i, v := range args {
+				a8[i] = int8(v)
+			}
+			var l []int8
+			var err error
+			if fn == 42 {
+				l, err = gogu.Range(a8...)
+			} else {
+				l, err = gogu.RangeRight(a8...)
+			}
+			if err != nil {
+				res = resErr(1)
+			} else {
+				w := (&W{}).Int(0).Int(len(l))
+				for _, x := range l {
+					w.Int(int(x))
+				}
+				res = w.Out()
+			}
+		case 44, 45:
+			args := r.Ints()
+			a8 := make([]uint8, len(args))
+			for i, v := range args {
+				a8[i] = uint8(v)
+			}
+			var l []uint8
+			var err error
+			if fn == 44 {
+				l, err = gogu.Range(a8...)
+			} else {
+				l, err = gogu.RangeRight(a8...)
+			}
+			if err != nil {
+				res = resErr(1)
+			} else {
+				w := (&W{}).Int(0).Int(len(l))
+				for _, x := range l {
+					w.Int(int(x))
+				}
+				res = w.Out()
+			}
+		case 36, 37, 38:
+			s := r.Ints()
+			fs := make([]float64, len(s))
+			for i, v := range s {
+				fs[i] = float64(v) / 4
+			}
+			switch fn {
+			case 36:
+				res = []int64{c13Quarter(gogu.Sum(fs))}
+			case 37:
+				res = []int64{c13Quarter(gogu.FindMin(fs))}
+			default:
+				res = []int64{c13Quarter(gogu.FindMax(fs))}
+			}
+		case 39, 40:
+			ss := c13Strs(r.Ints())
+			if fn == 39 {
+				res = []int64{c13UnStr(gogu.Min(ss...))}
+			} else {
+				res = []int64{c13UnStr(gogu.Max(ss...))}
+			}
+		case 41:
+			s, x := r.Ints(), r.Int()
+			res = []int64{int64(gogu.IndexOf(c13Strs(s), fmt.Sprintf("%05d", x+50000)))}
 		default:
 			res = []int64{-1}
 		}
@@ -205,11 +459,94 @@ func execC13(in []int64) (out []int64) {
 	return res
 }
 
+// c13Quarter maps a float64 that is a multiple of 1/4 back to 4x its value; anything else (a rounding
+// error, NaN, an infinity) to a value no model answer can equal.
+func c13Quarter(x float64) int64 {
+	y := x * 4
+	if y != math.Trunc(y) || math.Abs(y) > 1e15 {
+		return math.MinInt64 + 12345
+	}
+	return int64(y)
+}
+
+func c13Strs(s []int) []string {
+	out := make([]string, len(s))
+	for i, v := range s {
+		out[i] = fmt.Sprintf("%05d", v+50000)
+	}
+	return out
+}
+
+func c13UnStr(s string) int64 {
+	if s == "" {
+		return 0
+	}
+	var v int
+	if _, err := fmt.Sscanf(s, "%d", &v); err != nil || len(s) != 5 {
+		return math.MinInt64 + 12345
+	}
+	return int64(v - 50000)
+}
+
+// rle: (value, count) pairs, flattened (mirror of C13_Wire.rle)
+func rle(row []int64) []int64 {
+	var out []int64
+	for i := 0; i < len(row); {
+		j := i
+		for j < len(row) && row[j] == row[i] {
+			j++
+		}
+		out = append(out, row[i], int64(j-i))
+		i = j
+	}
+	return out
+}
+
+// c13RangeFits decides, in unbounded arithmetic, whether Range(args...) is a case the harness sends: the
+// arguments are rejected, or the progression start, start -+ |step|, ... strictly before end has at most
+// maxTerms terms.  (Since the repair 07bbafa the loops stop when the next term would not fit into the element
+// type, so every such call returns; before it a counter that wrapped ran on until memory was exhausted —
+// the calls are made in a child process, see execC13.)
+func c13RangeFits(args []int, maxTerms int64) bool {
+	var s, st, e int64
+	switch len(args) {
+	case 0:
+		return true
+	case 1:
+		s, st, e = 0, 1, int64(args[0])
+	case 2:
+		s, st, e = int64(args[0]), 1, int64(args[1])
+	case 3:
+		s, st, e = int64(args[0]), int64(args[1]), int64(args[2])
+		if (s > e && e > 0) || st == 0 || (st < 0 && e > s) {
+			return true // an error is expected
+		}
+	default:
+		return true
+	}
+	S, A, E := big.NewInt(s), new(big.Int).Abs(big.NewInt(st)), big.NewInt(e)
+	var dist *big.Int
+	if e > 0 {
+		dist = new(big.Int).Sub(E, S)
+	} else {
+		dist = new(big.Int).Sub(S, E)
+	}
+	if dist.Sign() <= 0 {
+		return true
+	}
+	n := new(big.Int).Add(dist, new(big.Int).Sub(A, big.NewInt(1)))
+	n.Div(n, A)
+	return n.Cmp(big.NewInt(maxTerms)) <= 0
+}
+
 var c13Names = map[int]string{1: "IndexOf", 2: "LastIndexOf", 3: "FindIndex", 4: "FindLastIndex", 5: "FindAll",
 	6: "Contains", 7: "Some", 8: "Every", 9: "FindMin", 10: "FindMax", 11: "Min", 12: "Max", 13: "FindMinBy",
 	14: "FindMaxBy", 15: "FindMinByKey", 16: "FindMaxByKey", 17: "Nth", 18: "Sum", 19: "SumBy", 20: "Mean",
 	21: "Sum[int8]", 22: "Abs", 23: "Clamp", 24: "InRange", 25: "Abs[int8]", 26: "Compare", 27: "Less",
-	28: "Equal", 29: "Range", 30: "RangeRight"}
+	28: "Equal", 29: "Range", 30: "RangeRight", 31: "Mean[int8]", 32: "Clamp[int8]row", 33: "InRange[int8]row",
+	34: "Range[float64]/4", 35: "RangeRight[float64]/4", 36: "Sum[float64]/4", 37: "FindMin[float64]/4", 38: "FindMax[float64]/4",
+	39: "Min[string]", 40: "Max[string]", 41: "IndexOf[string]",
+	42: "Range[int8]", 43: "RangeRight[int8]", 44: "Range[uint8]", 45: "RangeRight[uint8]"}
 
 func describeC13(in []int64) string {
 	if len(in) == 0 {
@@ -220,8 +557,12 @@ func describeC13(in []int64) string {
 
 func genC13(g *Gen) {
 	alpha := []int{-1, 0, 1, 2}
-	maxLen := g.Pick(4, 6)
+	maxLen := g.Pick(5, 6)
 	emit := func(stream string, nt bool, w *W) {
+		if c13IsRange(w.w[0]) && c13Runaways >= c13MaxRunaways {
+			g.Count("range_case_not_sent_after_runaway_calls")
+			return
+		}
 		g.Count(c13Names[int(w.w[0])])
 		g.Case(stream, nt, w.Out())
 	}
@@ -238,7 +579,7 @@ func genC13(g *Gen) {
 				emit("exhaustive", n > 1, (&W{}).Int(fn).Int(p[0]).Int(p[1]).Ints(s))
 			}
 		}
-		for _, fn := range []int{9, 10, 11, 12, 18, 20, 21} {
+		for _, fn := range []int{9, 10, 11, 12, 18, 20, 21, 31} {
 			emit("exhaustive", n > 1, (&W{}).Int(fn).Ints(s))
 		}
 		for k := 0; k <= 4; k++ {
@@ -273,6 +614,15 @@ func genC13(g *Gen) {
 			}
 		}
 	}
+	// whole rows: for int8 lo, hi (all pairs in the thorough tier, every third value in the quick one) the
+	// results for EVERY int8 n — in the thorough tier this is every int8 triple
+	rs := g.Pick(3, 1)
+	for lo := -128; lo <= 127; lo += rs {
+		for hi := -128; hi <= 127; hi += rs {
+			emit("exhaustive", lo <= hi, (&W{}).Int(32).Int(lo).Int(hi))
+			emit("exhaustive", true, (&W{}).Int(33).Int(lo).Int(hi))
+		}
+	}
 	for x := -128; x <= 127; x++ {
 		emit("exhaustive", true, (&W{}).Int(22).Int(x))
 		emit("exhaustive", true, (&W{}).Int(25).Int(x))
@@ -286,7 +636,7 @@ func genC13(g *Gen) {
 		}
 	}
 	// Range / RangeRight: all (start, step, end) in a cube, plus 0/1/2/4 arguments
-	rb := g.Pick(6, 10)
+	rb := g.Pick(10, 14)
 	for a := -rb; a <= rb; a++ {
 		emit("exhaustive", true, (&W{}).Int(29).Ints([]int{a}))
 		emit("exhaustive", true, (&W{}).Int(30).Ints([]int{a}))
@@ -348,9 +698,252 @@ func genC13(g *Gen) {
 		}
 		emit("random", true, w)
 	}
+	// --- other instantiations (float64 on quarters, strings as numerals): every (start,step,end) in [-8,8]^3
+	// quarters for Range[float64], seeded random slices for the rest
+	for a := -8; a <= 8; a++ {
+		for b := -8; b <= 8; b++ {
+			for c := -8; c <= 8; c++ {
+				emit("instances", true, (&W{}).Int(34).Ints([]int{a, b, c}))
+				if (a+b+c)%3 == 0 {
+					emit("instances", true, (&W{}).Int(35).Ints([]int{a, b, c}))
+				}
+			}
+		}
+	}
+	// Range at narrow element types: int8 and uint8 around the limits of the type (the counter would wrap)
+	v8 := []int{-128, -127, -126, -100, -64, -10, -3, -1, 0, 1, 2, 3, 10, 64, 100, 120, 125, 126, 127}
+	st8 := []int{1, 2, 3, 5, 7, 64, 100, 127, -1, -2, -3, -5, -7, -64, -100, -127, -128, 0}
+	for _, a := range v8 {
+		emit("instances", true, (&W{}).Int(42).Ints([]int{a}))
+		emit("instances", true, (&W{}).Int(43).Ints([]int{a}))
+		for _, c := range v8 {
+			emit("instances", true, (&W{}).Int(42).Ints([]int{a, c}))
+			for _, b := range st8 {
+				emit("instances", true, (&W{}).Int(42).Ints([]int{a, b, c}))
+				if (a+b+c)%3 == 0 {
+					emit("instances", true, (&W{}).Int(43).Ints([]int{a, b, c}))
+				}
+			}
+		}
+	}
+	vu := []int{0, 1, 2, 3, 5, 10, 100, 127, 128, 200, 250, 253, 254, 255}
+	stu := []int{1, 2, 3, 5, 7, 100, 128, 200, 255, 0}
+	for _, a := range vu {
+		emit("instances", true, (&W{}).Int(44).Ints([]int{a}))
+		emit("instances", true, (&W{}).Int(45).Ints([]int{a}))
+		for _, c := range vu {
+			emit("instances", true, (&W{}).Int(44).Ints([]int{a, c}))
+			for _, b := range stu {
+				emit("instances", true, (&W{}).Int(44).Ints([]int{a, b, c}))
+				if (a+b+c)%3 == 0 {
+					emit("instances", true, (&W{}).Int(45).Ints([]int{a, b, c}))
+				}
+			}
+		}
+	}
+	for i := 0; i < g.Pick(2000, 40000); i++ { // random triples over the whole of int8 / uint8
+		if i%2 == 0 {
+			emit("instances", true, (&W{}).Int(42+g.Rng.Intn(2)).Ints([]int{g.Rng.Intn(256) - 128, g.Rng.Intn(256) - 128, g.Rng.Intn(256) - 128}))
+		} else {
+			emit("instances", true, (&W{}).Int(44+g.Rng.Intn(2)).Ints([]int{g.Rng.Intn(256), g.Rng.Intn(256), g.Rng.Intn(256)}))
+		}
+	}
+	for i := 0; i < g.Pick(1500, 15000); i++ {
+		s := randSlice(g.Rng, 12, -40, 40)
+		fn := 36 + g.Rng.Intn(6)
+		w := (&W{}).Int(fn).Ints(s)
+		if fn == 41 {
+			x := g.Rng.Intn(81) - 40
+			if len(s) > 0 && g.Rng.Intn(2) == 0 {
+				x = s[g.Rng.Intn(len(s))]
+			}
+			w.Int(x)
+		}
+		emit("instances", len(s) > 1, w)
+	}
+	// --- extreme stream: arguments at and around the limits of int64 and of int32/uint32 ---
+	const maxI, minI = math.MaxInt64, math.MinInt64
+	ext := []int{maxI, maxI - 1, minI, minI + 1, 1 << 31, -(1 << 31), 1 << 32, -(1 << 32), 1 << 62, -(1 << 62), -1, 0, 1}
+	ext6 := []int{maxI, minI, 1 << 62, -(1 << 62), 1, -1}
+	shortS := [][]int{{}, {7}, {7, 8}, {7, 8, 9}}
+	for _, s := range shortS { // Nth: every extreme index, plus the window shifted by +-2^32 and +-2^63 (wrapping)
+		for _, i := range ext {
+			emit("extreme", true, (&W{}).Int(17).Ints(s).Int(i))
+		}
+		for d := -len(s) - 1; d <= len(s)+1; d++ {
+			emit("extreme", true, (&W{}).Int(17).Ints(s).Int(d+1<<32))
+			emit("extreme", true, (&W{}).Int(17).Ints(s).Int(d-1<<32))
+			if d > 0 {
+				emit("extreme", true, (&W{}).Int(17).Ints(s).Int(minI+d))
+			}
+			if d < 0 {
+				emit("extreme", true, (&W{}).Int(17).Ints(s).Int(maxI+d))
+			}
+		}
+	}
+	rangeCase := func(stream string, fn int, args []int) {
+		if c13RangeFits(args, 5000) {
+			emit(stream, true, (&W{}).Int(fn).Ints(args))
+		} else {
+			g.Count("range_case_skipped_more_than_5000_terms")
+		}
+	}
+	for _, a := range ext { // Range / RangeRight: every extreme single, pair and triple that can be executed
+		rangeCase("extreme", 29, []int{a})
+		rangeCase("extreme", 30, []int{a})
+		for _, b := range ext {
+			rangeCase("extreme", 29, []int{a, b})
+			rangeCase("extreme", 30, []int{a, b})
+			for _, c := range ext {
+				rangeCase("extreme", 29, []int{a, b, c})
+				rangeCase("extreme", 30, []int{a, b, c})
+			}
+		}
+	}
+	// short progressions that end within a few steps of the top / bottom of the type
+	for _, st := range []int{1, 2, 3, 1 << 31, 1 << 62, -1, -2, -(1 << 62)} {
+		ast := st
+		if ast < 0 {
+			ast = -ast
+		}
+		for k := 0; k <= 4; k++ {
+			for back := 0; back <= 3; back++ {
+				hiEnd, loEnd := maxI-back, minI+back
+				off := new(big.Int).Mul(big.NewInt(int64(k)), big.NewInt(int64(ast)))
+				if up := new(big.Int).Sub(big.NewInt(int64(hiEnd)), off); st > 0 && up.IsInt64() {
+					rangeCase("extreme", 29, []int{int(up.Int64()), st, hiEnd})
+					rangeCase("extreme", 30, []int{int(up.Int64()), st, hiEnd})
+				}
+				// descending (end <= 0): toward the bottom of the type
+				if down := new(big.Int).Add(big.NewInt(int64(loEnd)), off); down.IsInt64() {
+					rangeCase("extreme", 29, []int{int(down.Int64()), st, loEnd})
+					rangeCase("extreme", 30, []int{int(down.Int64()), st, loEnd})
+				}
+			}
+		}
+	}
+	for _, a := range ext { // Clamp / InRange / Compare / Less / Equal / Abs on extreme values
+		emit("extreme", true, (&W{}).Int(22).Int(a))
+		for _, b := range ext {
+			emit("extreme", true, (&W{}).Int(26).Int(0).Int(a).Int(b))
+			emit("extreme", true, (&W{}).Int(26).Int(1).Int(a).Int(b))
+			emit("extreme", true, (&W{}).Int(27).Int(a).Int(b))
+			emit("extreme", true, (&W{}).Int(28).Int(a).Int(b))
+			for _, c := range ext {
+				emit("extreme", b <= c, (&W{}).Int(23).Int(a).Int(b).Int(c))
+				emit("extreme", true, (&W{}).Int(24).Int(a).Int(b).Int(c))
+			}
+		}
+	}
+	slicesOver(ext6, 3, func(s []int) { // aggregates, extrema, searches over slices of extreme values
+		n := len(s)
+		for _, fn := range []int{9, 10, 11, 12, 18, 20} {
+			emit("extreme", n > 1, (&W{}).Int(fn).Ints(s))
+		}
+		for k := 0; k <= 4; k++ {
+			for _, fn := range []int{13, 14, 19} {
+				emit("extreme", n > 1, (&W{}).Int(fn).Int(k).Ints(s))
+			}
+		}
+		if n <= 2 {
+			for _, x := range ext {
+				for _, fn := range []int{1, 2, 6} {
+					emit("extreme", n > 1, (&W{}).Int(fn).Ints(s).Int(x))
+				}
+				for _, pc := range []int{3, 4} {
+					for _, fn := range []int{3, 4, 5, 7, 8} {
+						emit("extreme", n > 1, (&W{}).Int(fn).Int(pc).Int(x).Ints(s))
+					}
+				}
+			}
+		}
+	})
+	for _, key := range []int{maxI, minI, 0} { // ByKey with extreme keys and values
+		for _, ms := range [][][]int{{{key, maxI}, {key, minI}}, {{key, minI}, {key, 1}, {key, maxI}}, {{key, 1}, {key ^ 1, minI}, {key, -1}}, {{key ^ 1, 5}, {key, 1}}} {
+			emit("extreme", true, (&W{}).Int(15).Int(key).Intss(ms))
+			emit("extreme", true, (&W{}).Int(16).Int(key).Intss(ms))
+		}
+	}
+	// --- large stream: slices of 100..5000 elements, lists of 100..500 maps, ranges of up to 5000 terms ---
+	nl := g.Pick(24, 200)
+	for i := 0; i < nl; i++ {
+		n := 100 + g.Rng.Intn(4901)
+		if i%4 == 0 {
+			n = 100 + g.Rng.Intn(200)
+		}
+		width := []int{3, 50, 100000, 1 << 40}[g.Rng.Intn(4)]
+		s := make([]int, n)
+		for j := range s {
+			s[j] = g.Rng.Intn(2*width+1) - width
+		}
+		x := s[g.Rng.Intn(n)]
+		if g.Rng.Intn(4) == 0 {
+			x = width + 1
+		}
+		for _, fn := range []int{1, 2, 6} {
+			emit("large", true, (&W{}).Int(fn).Ints(s).Int(x))
+		}
+		pc, pa := g.Rng.Intn(5), g.Rng.Intn(2*width+1)-width
+		for _, fn := range []int{3, 4, 5, 7, 8} {
+			emit("large", true, (&W{}).Int(fn).Int(pc).Int(pa).Ints(s))
+		}
+		for _, fn := range []int{9, 10, 11, 12, 18, 20, 21, 31} {
+			emit("large", true, (&W{}).Int(fn).Ints(s))
+		}
+		k := g.Rng.Intn(5)
+		for _, fn := range []int{13, 14, 19} {
+			emit("large", true, (&W{}).Int(fn).Int(k).Ints(s))
+		}
+		for _, idx := range []int{0, n - 1, n, -n, -n - 1, -1, n / 2, -n / 2, g.Rng.Intn(2*n+4) - n - 2} {
+			emit("large", true, (&W{}).Int(17).Ints(s).Int(idx))
+		}
+	}
+	for i := 0; i < nl/2; i++ {
+		n := 100 + g.Rng.Intn(4901)
+		st := 1 + g.Rng.Intn(7)
+		s0 := g.Rng.Intn(2001) - 1000
+		for _, fn := range []int{29, 30} {
+			rangeCase("large", fn, []int{n})
+			rangeCase("large", fn, []int{-n})
+			rangeCase("large", fn, []int{s0, s0 + n})
+			rangeCase("large", fn, []int{s0, st, s0 + n*st - g.Rng.Intn(st)})
+			rangeCase("large", fn, []int{s0 + n*st, -st, s0 - 2000})
+			rangeCase("large", fn, []int{maxI - n*st - g.Rng.Intn(3), st, maxI - st + 1})
+			rangeCase("large", fn, []int{minI + n*st + g.Rng.Intn(3), st, minI + st})
+		}
+	}
+	for i := 0; i < nl/2; i++ { // ByKey over 100..500 maps, a third of which lack the key
+		n := 100 + g.Rng.Intn(401)
+		ms := make([][]int, n)
+		for j := range ms {
+			switch g.Rng.Intn(3) {
+			case 0:
+				ms[j] = []int{1, g.Rng.Intn(2001) - 1000}
+			case 1:
+				ms[j] = []int{0, g.Rng.Intn(2001) - 1000, 1, g.Rng.Intn(2001) - 1000}
+			default:
+				ms[j] = []int{0, g.Rng.Intn(2001) - 1000}
+			}
+		}
+		for key := 0; key <= 1; key++ {
+			emit("large", true, (&W{}).Int(15).Int(key).Intss(ms))
+			emit("large", true, (&W{}).Int(16).Int(key).Intss(ms))
+		}
+	}
+	// Mean[int8] / Sum[int8] at the lengths where int8(len) wraps: 127, 128, 129, 255, 256, 257, 384, 512
+	for _, n := range []int{126, 127, 128, 129, 200, 255, 256, 257, 384, 511, 512, 513} {
+		for rep := 0; rep < g.Pick(3, 20); rep++ {
+			s := make([]int, n)
+			for j := range s {
+				s[j] = g.Rng.Intn(256) - 128
+			}
+			emit("large", true, (&W{}).Int(31).Ints(s))
+			emit("large", true, (&W{}).Int(21).Ints(s))
+		}
+	}
 }
 
 func init() {
 	register(&Prop{ID: "C13", Exec: execC13, Gen: genC13, Describe: describeC13,
-		Rule: "exhaustive: every slice of length <= 4 (thorough 6) over {-1,0,1,2} x every probe in [-2,3] / predicate family / key family / index in [-len-2,len+2]; int8 cube for Clamp/InRange (stride 9 quick, 4 thorough) plus every boundary probe n in {lo-1..lo+1,hi-1..hi+1} for int8 lo<=hi (stride 5 quick, all thorough) and all int8 for Abs; (start,step,end) in [-6,6]^3 (thorough [-10,10]^3) for Range; lists of <= 3 maps for ByKey; then seeded random slices up to length 24 over [-50,50]. non-trivial = slice longer than 1 element, or any index/range/clamp probe; distinct = distinct wire input"})
+		Rule: "exhaustive: every slice of length <= 5 (thorough 6) over {-1,0,1,2} x every probe in [-2,3] / predicate family / key family / index in [-len-2,len+2] (incl. Sum[int8], Mean[int8]); Clamp[int8] and InRange[int8] as whole rows: for int8 (lo,hi) - every third value quick, ALL pairs thorough - the results for every int8 n (thorough = every int8 triple), plus an int8 cube at stride 9/4 and every boundary probe n in {lo-1..lo+1,hi-1..hi+1} (stride 5 quick, all thorough) through the int instantiation, and all int8 for Abs / Abs[int8]; (start,step,end) in [-10,10]^3 (thorough [-14,14]^3) and every 1- and 2-argument call in that range, 0 and >3 arguments, for Range; lists of <= 3 (4) maps for ByKey. extreme: indices / probes / bounds / steps / elements in {MaxInt, MaxInt-1, MinInt, MinInt+1, +-2^31, +-2^32, +-2^62, -1, 0, 1} for Nth (and the valid window shifted by +-2^32 and to both ends of int64), Range/RangeRight (every single, pair and triple whose result has <= 5000 terms - the counter may pass the limits of int64: the repaired loops stop there - or that is rejected; progressions ending within 3 of MaxInt / MinInt), Clamp, InRange, Abs, Compare/Less/Equal, and slices of length <= 3 over {MaxInt, MinInt, +-2^62, +-1} for Sum/SumBy/Mean/Min/Max/FindMin/FindMax(+By) and (length <= 2) the searches with extreme probes. large: slices of 100..5000 elements for every slice function, Nth at both ends, ranges of 100..5000 terms (also ending at MaxInt / MinInt), ByKey over 100..500 maps, Sum/Mean[int8] at the lengths where int8(len) wraps. random: seeded slices up to length 24 over [-50,50]. instances: Range/RangeRight[float64] on every (start,step,end) in [-8,8]^3 quarters, Range/RangeRight[int8] and [uint8] on 19 / 14 start and end values at and around the limits of the type x 18 / 10 steps (incl. -128) and seeded random triples over the whole type, Sum/FindMin/FindMax[float64] on quarters and Min/Max/IndexOf[string] on numerals, seeded random slices up to length 12. non-trivial = slice longer than 1 element, or any index/range probe, or a Clamp with lo <= hi; distinct = distinct wire input"})
 }
